@@ -106,10 +106,16 @@ func (d *c05Describer) describe(v reflect.Value) *ev.Node {
 		}
 		return &ev.Node{Tag: "num", Val: ev.NumBigFloat(x)}
 	case apd.Decimal:
+		if n := c05APDNaN(&x); n != nil {
+			return n
+		}
 		return &ev.Node{Tag: "num", Val: ev.NumAPD(&x)}
 	case *apd.Decimal:
 		if x == nil {
 			return null
+		}
+		if n := c05APDNaN(x); n != nil {
+			return n
 		}
 		return &ev.Node{Tag: "num", Val: ev.NumAPD(x)}
 	case compact_float.DFloat:
@@ -222,6 +228,17 @@ func (d *c05Describer) describe(v reflect.Value) *ev.Node {
 		return n
 	}
 	return &ev.Node{Tag: "?unsupported", Val: v.Type().String()}
+}
+
+// c05APDNaN: the description of a decimal NaN (quiet or signalling), nil for any other decimal.
+func c05APDNaN(d *apd.Decimal) *ev.Node {
+	switch d.Form {
+	case apd.NaN:
+		return &ev.Node{Tag: "nan", Val: "q"}
+	case apd.NaNSignaling:
+		return &ev.Node{Tag: "nan", Val: "s"}
+	}
+	return nil
 }
 
 func timeNode(t compact_time.Time) *ev.Node {
